@@ -125,6 +125,54 @@ pub struct VmSim {
     /// freed pages keep their old bytes
     pub decommit_noop: bool,
     pub skipped_decommits: u64,
+    /// Where the kernel puts a reservation is its own choice (any page-aligned address). When
+    /// `controlled`, the simulated kernel makes that choice: the n-th reservation is placed at
+    /// `1 MiB boundary + base_page_offsets[n] * 4 KiB` inside a window it owns, so the alignment of
+    /// reservation bases is part of the seeded scenario instead of an accident of ASLR.
+    pub controlled: bool,
+    pub base_page_offsets: Vec<usize>,
+    pub cursor: usize,
+    pub placed: u64,
+}
+
+/// The address window of the simulated kernel: reserved once per process, PROT_NONE, never given
+/// back, so that nothing else can land inside it.
+#[derive(Clone, Copy, Debug)]
+pub struct Window {
+    pub base: usize,
+    pub size: usize,
+}
+::std::thread_local! {
+    static WINDOW: ::std::cell::Cell<Option<Window>> = const { ::std::cell::Cell::new(None) };
+    /// reservations that outlive a run (the global scratch arenas) keep the space below this address
+    static WINDOW_FLOOR: ::std::cell::Cell<usize> = const { ::std::cell::Cell::new(0) };
+}
+pub const MIB: usize = 1 << 20;
+pub fn window() -> Window {
+    WINDOW.with(|w| {
+        if let Some(x) = w.get() {
+            return x;
+        }
+        let size = 768 * MIB;
+        let p = unsafe { ::libc::mmap(::std::ptr::null_mut(), size + MIB, PROT_NONE, MAP_PRIVATE | MAP_ANONYMOUS | MAP_NORESERVE, -1, 0) };
+        assert!(p != MAP_FAILED, "cannot reserve the simulated kernel's address window");
+        let base = (p as usize + MIB - 1) & !(MIB - 1);
+        let x = Window { base, size };
+        w.set(Some(x));
+        WINDOW_FLOOR.with(|f| f.set(base));
+        x
+    })
+}
+pub fn window_floor() -> usize {
+    window();
+    WINDOW_FLOOR.with(::std::cell::Cell::get)
+}
+/// Everything placed so far stays for the life of the process (used after creating the globals).
+pub fn raise_window_floor(to: usize) {
+    WINDOW_FLOOR.with(|f| f.set(f.get().max(to)));
+}
+fn in_window(addr: usize) -> bool {
+    WINDOW.with(|w| w.get().is_some_and(|x| addr >= x.base && addr < x.base + x.size))
 }
 
 pub const PAGE: usize = 4096;
@@ -221,7 +269,31 @@ pub unsafe fn mmap(
         unsafe { *::libc::__errno_location() = ENOMEM };
         return MAP_FAILED;
     }
-    let p = unsafe { ::libc::mmap(addr, len, prot, flags, fd, off) };
+    // the simulated kernel chooses the address
+    let placed_at: Option<usize> = VM.with(|v| {
+        let mut g = v.borrow_mut();
+        let vm = g.as_mut()?;
+        if !vm.controlled || !addr.is_null() {
+            return None;
+        }
+        let w = window();
+        if vm.cursor < window_floor() {
+            vm.cursor = window_floor();
+        }
+        let k = if vm.base_page_offsets.is_empty() { 0 } else { vm.base_page_offsets[(vm.placed as usize) % vm.base_page_offsets.len()] };
+        let base = ((vm.cursor + MIB - 1) & !(MIB - 1)) + (k % 256) * PAGE;
+        let len_pages = (len + PAGE - 1) & !(PAGE - 1);
+        if base + len_pages > w.base + w.size {
+            return None;
+        }
+        vm.cursor = base + len_pages;
+        vm.placed += 1;
+        Some(base)
+    });
+    let p = match placed_at {
+        Some(a) => unsafe { ::libc::mmap(a as *mut c_void, len, prot, flags | MAP_FIXED, fd, off) },
+        None => unsafe { ::libc::mmap(addr, len, prot, flags, fd, off) },
+    };
     VM.with(|v| {
         if let Some(vm) = v.borrow_mut().as_mut() {
             let ok = p != MAP_FAILED && !p.is_null();
@@ -333,5 +405,10 @@ pub unsafe fn munmap(addr: *mut c_void, len: size_t) -> c_int {
             }
         }
     });
+    if in_window(addr as usize) {
+        // keep the window ours: the range goes back to "reserved, inaccessible" instead of to the OS
+        let p = unsafe { ::libc::mmap(addr, len, PROT_NONE, MAP_PRIVATE | MAP_ANONYMOUS | MAP_NORESERVE | MAP_FIXED, -1, 0) };
+        return if p == MAP_FAILED { -1 } else { 0 };
+    }
     unsafe { ::libc::munmap(addr, len) }
 }
